@@ -423,6 +423,9 @@ inductive Stmt where
   | assign (dst : String) (e : Expr)               -- dst = e
   | selset (dst : String) (key : String) (v : TVal) -- dst.key = <literal>   (in-place update of a map object)
   | fail                                           -- a statement that fails at run time (1 + "s")
+  | hidden (shape : Nat)                           -- a top-level block / loop declaring block-scoped variables only
+                                                   -- (`if true { t := 1 }`, `for i := 0; …`, `for k, v in …`): they take
+                                                   -- global slots but no name of globalIndexes; invisible to the API
   deriving Repr, Inhabited
 
 inductive ApiErr where
@@ -523,6 +526,7 @@ def compileNames : List Stmt → List String → Except ApiErr (List String)
   | .selset d _ _ :: rest, names =>
       if !names.contains d then .error (.unresolved d) else compileNames rest names
   | .fail :: rest, names => compileNames rest names
+  | .hidden _ :: rest, names => compileNames rest names
 
 /-! ### Concrete model: globals hold references into a store of top-level objects -/
 
@@ -560,6 +564,7 @@ def execC : List Stmt → List TVal → List (String × Option Nat) → List TVa
           | _ => (st, sl, true)
       | none => (st, sl, true)
   | .fail :: _, st, sl => (st, sl, true)
+  | .hidden _ :: rest, st, sl => execC rest st sl
 
 /-- `Clone`: every non-nil global is copied into a fresh object. -/
 def cloneSlots : List (String × Option Nat) → List TVal → List TVal × List (String × Option Nat)
@@ -672,6 +677,7 @@ def execA : List Stmt → List (String × Option TVal) → List (String × Optio
       | some (.map m) => execA rest (setKey d (some (.map (upsert k v m))) env)
       | _ => (env, true)
   | .fail :: _, env => (env, true)
+  | .hidden _ :: rest, env => execA rest env
 
 def astep (L : Limits) (a : Abs) : Op → Abs × Out
   | .newScript src => ({ a with scripts := a.scripts ++ [{ vars := [], src := src }] }, .script a.scripts.length)
